@@ -1,6 +1,6 @@
 (** Proofs about [Model/Iteragg.v] (property C19). *)
 From HDC Require Import Base.Prelude Base.ListLemmas Model.Iteragg.
-From Coq Require Import Sorting.Sorted ZifyBool.
+From Coq Require Import Sorting.Sorted ZifyBool FinFun.
 Open Scope Z_scope.
 
 (** ** the loop yields exactly the complete trailing windows, newest first *)
@@ -197,4 +197,29 @@ Lemma slice_nth {A} (l : list A) jj ii k d :
   0 <= jj -> (k < Z.to_nat (ii - jj))%nat -> nth k (slice l (jj, ii)) d = nth (Z.to_nat jj + k) l d.
 Proof.
   intros H1 H2. unfold slice. cbn [fst snd]. rewrite nth_firstn_lt by exact H2. apply nth_skipn'.
+Qed.
+
+(** ** no window is yielded twice, and their number is known in advance *)
+Lemma down_length k hi : length (down k hi) = k.
+Proof. revert hi; induction k as [|k IH]; intros hi; cbn [down length]; [reflexivity|now rewrite IH]. Qed.
+
+Lemma down_nodup k : forall hi, NoDup (down k hi).
+Proof.
+  induction k as [|k IH]; intros hi; cbn [down]; constructor; [|apply IH].
+  intros H. apply in_down in H. lia.
+Qed.
+
+Lemma window_of_inj n e1 e2 : window_of n e1 = window_of n e2 -> e1 = e2.
+Proof. unfold window_of. intros H. injection H as _ H. lia. Qed.
+
+Lemma agg_loop_nodup b n eix : 1 <= n -> 0 <= b -> NoDup (agg_loop (Z.to_nat b) b n eix).
+Proof.
+  intros Hn Hb. rewrite agg_loop_spec by lia.
+  apply Injective_map_NoDup; [intros e1 e2; apply window_of_inj|apply down_nodup].
+Qed.
+
+Lemma agg_loop_length b n eix : 1 <= n -> 0 <= b ->
+  Z.of_nat (length (agg_loop (Z.to_nat b) b n eix)) = Z.max 0 (b - Z.max eix (n - 1)).
+Proof.
+  intros Hn Hb. rewrite agg_loop_spec by lia. rewrite map_length. unfold desc_range. rewrite down_length. lia.
 Qed.
